@@ -28,7 +28,7 @@ CHECKS.update({
  "C03": pool("After a fault-free drain (all dials/handshakes/responses resolved, background quiescent, only woken futures polled) every non-cancelled request must be ready; a forced poll distinguishes lost wake-ups from stranded requests; a probe request per origin must then succeed.", "DESIGN.md 5 (C03), 4.A"),
  "C04": pool("An open HTTP/1 connection whose exchanges were all delivered must not be destroyed by the pool (no idle limit or timeout in this profile). Every transport connect call is attributed to its request and classified from the state at that request's issue step: idle connection present at a quiescent point, HTTP/2 attempt in flight, HTTP/2 connection established; cancelling an unserved request must not destroy idle connections. Ambiguous competition is not judged.", "DESIGN.md 5 (C04), 4.A"),
  "C05": pool("At every hand-off of a pooled connection: not closed before the request was issued nor before its hand-back; not idle longer than idle_timeout at the issue instant (virtual clock via hook H2), for idle durations on both sides of the limit.", "DESIGN.md 5 (C05), 4.A"),
- "C06": pool("At every hand-off the (scheme, authority) the connection was dialed for equals the request's, over 2-4 origins that differ only in scheme, port, case or host, with waiters and idle connections alive for several at once.", "DESIGN.md 5 (C06), 4.A"),
+ "C06": ("poolsim+realconnect",) + pool("Second part (realconnect): the real TcpTransport with a static resolver whose answer carries another port than the URI - the returned stream must be connected to the URI's port. At every hand-off the (scheme, authority) the connection was dialed for equals the request's, over 2-4 origins that differ only in scheme, port, case or host, with waiters and idle connections alive for several at once.", "DESIGN.md 5 (C06), 4.A")[1:],
  "C14": pool("After each hand-back / HTTP/2 registration the first request with a provably live waiter must be handed that connection at its very next poll; abandoned attempts complete into the pool (continue_after_preemption) or are dropped at once (otherwise).", "DESIGN.md 5 (C14), 4.A"),
  "C15": ("poolsim+e2eidle",) + pool("After every step: open idle HTTP/1 connections retained per origin, minus those a pending request could be holding, never exceeds max_idle_per_host in {0,1,2,k-1,k,k+1}. Second part (e2eidle): the same bound through a real Client built by Client::builder() in every order of the builder calls, real servers and SimNet - 100 ms of virtual time after a burst of k concurrent HTTP/1.1 requests the connections the client still holds are counted.", "DESIGN.md 5 (C15), 4.A, 11")[1:],
  "C17": pool("Panic monitor (process-wide hook + catch_unwind around every call/poll/drop + background tasks) over step lists that include every http::Version constant, upgrades, cancels, service drop.", "DESIGN.md 5 (C17)"),
